@@ -261,15 +261,50 @@ def _lookup_in(t, key_arg, *field_chain):
     return self_field(t[3][0], *field_chain) and k[0] == "arg" and k[1] == key_arg
 
 
+def _lookup_payload(t, *chain):
+    """t is the value found by `match self.<chain>.get(field_name) { Some(v) => *v, .. }`: the Some payload of the lookup"""
+    t = strip_refs(t)
+    while isinstance(t, tuple) and t[0] == "call" and t[1].split("::")[-1] in ("copied", "cloned", "clone") and t[3]:
+        t = strip_refs(t[3][0])
+    if isinstance(t, tuple) and t[0] == "field" and isinstance(t[1], tuple) and t[1][0] == "variant" and t[1][2] == "Some":
+        x = strip_refs(t[1][1])
+        while isinstance(x, tuple) and x[0] == "call" and x[1].split("::")[-1] in ("copied", "cloned") and x[3]:
+            x = strip_refs(x[3][0])
+        return _lookup_in(x, 2, *chain)
+    return False
+
+
 def _chunk_term(t):
-    """the generation of the field: metadata.field_generations[field_name], defaulting to 0"""
+    """the generation of the field: metadata.field_generations[field_name], defaulting to 0 (or the value found by an
+    explicit match on the lookup; the not-found arm is the constant 0 and is handled through the `has_generation` decision)"""
     x = _peel_default0(t)
-    return x is not None and _lookup_in(x, 2, "metadata", "field_generations")
+    return (x is not None and _lookup_in(x, 2, "metadata", "field_generations")) or \
+        _lookup_payload(t, "metadata", "field_generations")
 
 
 def _optsince_term(t):
     x = _peel_default0(t)
-    return x is not None and _lookup_in(x, 2, "metadata", "made_optional_at")
+    return (x is not None and _lookup_in(x, 2, "metadata", "made_optional_at")) or \
+        _lookup_payload(t, "metadata", "made_optional_at")
+
+
+def m_generation(c):
+    """`match self.metadata.field_generations.get(field_name)`: Some -> the field's chunk, None -> chunk 0"""
+    if c[0] == "discr":
+        x = strip_refs(c[1])
+        while isinstance(x, tuple) and x[0] == "call" and x[1].split("::")[-1] in ("copied", "cloned") and x[3]:
+            x = strip_refs(x[3][0])
+        if _lookup_in(x, 2, "metadata", "field_generations"):
+            return "has_generation"
+
+
+def m_optsince(c):
+    if c[0] == "discr":
+        x = strip_refs(c[1])
+        while isinstance(x, tuple) and x[0] == "call" and x[1].split("::")[-1] in ("copied", "cloned") and x[3]:
+            x = strip_refs(x[3][0])
+        if _lookup_in(x, 2, "metadata", "made_optional_at"):
+            return "has_optsince"
 
 
 def _member(e, key_pred, *field_chain):
@@ -350,10 +385,11 @@ def m_default(c):
         return "default"
 
 
-def _rfi_ok(R, key, p):
+def _rfi_ok(R, key, p, val=None):
     """record_field_index(self, chunk) exactly once"""
     cs = called(p, "AdtDeserializer::record_field_index")
-    okk = len(cs) == 1 and _chunk_term(cs[0][5][1])
+    okk = len(cs) == 1 and (_chunk_term(cs[0][5][1]) or
+                            ((val or {}).get("has_generation") == "None" and guards.rng(cs[0][5][1]) == (0, 0)))
     R.check(okk, key, "record_field_index", "the per-chunk field position is not advanced exactly once with the field's own "
             "chunk on this path (calls: %s)" % [show(c[5][1]) for c in cs])
     return okk
@@ -371,7 +407,7 @@ def read_field(an, rep):
         return R
     paths = walk.walk(b, core)
     rows = {k: 0 for k in ("removed", "missing+default", "missing-nodefault", "optional-defined", "optional-none", "plain")}
-    ms = (m_removed, m_missing, m_has_inputs, m_made_optional, m_is_defined, m_default)
+    ms = (m_removed, m_missing, m_has_inputs, m_made_optional, m_is_defined, m_default, m_generation)
     for p in paths:
         val, unres = valuation(p, ms)
         for u in unres:
@@ -389,7 +425,9 @@ def read_field(an, rep):
         if val.get("removed") is not False:
             R.fail(b.key, "row ?", "path does not test the removed-fields set first: %s" % desc)
             continue
-        _rfi_ok(R, b.key, p)
+        _rfi_ok(R, b.key, p, val)
+        if val.get("has_generation") == "None" and "missing" not in val:
+            val["missing"] = False           # chunk 0: `stored_version < 0` cannot hold
         if val.get("missing") is True:
             if val.get("default") == "Some":
                 rows["missing+default"] += 1
@@ -446,7 +484,7 @@ def read_optional_field(an, rep):
         return R
     paths = walk.walk(b, core)
     rows = {k: 0 for k in ("removed", "missing+default", "missing-nodefault", "wrap", "option")}
-    ms = (m_removed, m_missing, m_before_optional, m_has_inputs, m_default)
+    ms = (m_removed, m_missing, m_before_optional, m_has_inputs, m_default, m_generation, m_optsince)
     for p in paths:
         val, unres = valuation(p, ms)
         for u in unres:
@@ -467,7 +505,11 @@ def read_optional_field(an, rep):
         if val.get("removed") is not False:
             R.fail(b.key, "row ?", "path does not test the removed-fields set first: %s" % desc)
             continue
-        _rfi_ok(R, b.key, p)
+        _rfi_ok(R, b.key, p, val)
+        if val.get("has_generation") == "None" and "missing" not in val:
+            val["missing"] = False           # chunk 0: `stored_version < 0` cannot hold
+        if val.get("has_optsince") == "None" and "before_optional" not in val:
+            val["before_optional"] = False   # never made optional: `stored_version < 0` cannot hold
         if val.get("missing") is True:
             if val.get("default") == "Some":
                 rows["missing+default"] += 1
@@ -932,6 +974,8 @@ def field_position(an, rep):
                 if c[0] == "bin" and c[1] in ("Lt", "Ge") and guards.rng(c[3]) == (0, 0) and "read_i8" in show(c[2]):
                     tv = guards.truth(a[2])
                     neg = tv if c[1] == "Lt" else not tv
+                elif c[0] == "call" and c[1] in ("i8::is_negative",) and c[3] and "read_i8" in show(c[3][0]):
+                    neg = guards.truth(a[2])
             mk = [c for c in called(p, "FieldPosition::new")]
             pair = (mk[0][5][0], mk[0][5][1]) if len(mk) == 1 else None
             if pair is None:
@@ -1402,6 +1446,11 @@ def record_writer(an, rep):
                 if okk:
                     chunk = show(rec[0][5][2])
                     okk = "field_generations" in chunk and "field_generations" in show(push[0][5][1])
+                    if not okk:
+                        # explicit `match field_generations.get(name)`: on the not-found arm the chunk is the constant 0
+                        nf = any(m_generation(a[1]) and walk.atom_variant(a) == "None" for a in p.atoms())
+                        idx = [x for x in mir.walk_expr(push[0][5][1]) if x[0] == "call" and "Index" in x[1] and len(x[3]) == 2]
+                        okk = nf and guards.rng(rec[0][5][2]) == (0, 0) and bool(idx) and guards.rng(idx[0][3][1]) == (0, 0)
                 R.check(okk, b.key, "buffered", "an evolved record must buffer the field in the chunk of its generation and "
                         "record its position once", None, sample={"write_field": "push_buffer(buffers[gen]); serialize; pop; record"})
             elif buffered is False:
